@@ -79,11 +79,40 @@ def check(ctx: Ctx) -> None:
     ctx.instance('C18.a', fn.qualname)
     p = fn.params[0] if fn.params else 'seq_size'
     shapes = [norm(n) for n in ast.walk(fn.node) if isinstance(n, ast.Subscript)]
-    ok_shape = '_SMALL_PRIME_LIST[_SMALL_PRIME_LIST <= %s][-1]' % p in shapes
-    ctx.obligation('C18.a', fn.qualname + ':lookup', ok_shape, {'subscripts': shapes})
+    from ..astutil import const_value
+    TBL = '_SMALL_PRIME_LIST'
+    verdicts = []
+    from ..astutil import expander
+    import copy as _copy
+    _ex = expander(fn)
+    _nodes = list(ast.walk(fn.node)) + [y for x in ast.walk(fn.node) if isinstance(x, ast.Subscript) for y in [_ex(x)]]
+    for n in _nodes:
+        # T[T <op> size][k]
+        if isinstance(n, ast.Subscript) and isinstance(n.value, ast.Subscript) and norm(n.value.value) == TBL \
+                and isinstance(n.value.slice, ast.Compare) and len(n.value.slice.ops) == 1:
+            c = n.value.slice
+            a, b, op = norm(c.left), norm(c.comparators[0]), c.ops[0]
+            k = const_value(n.slice)
+            if (a, b) == (TBL, p) and isinstance(op, ast.LtE) or (a, b) == (p, TBL) and isinstance(op, ast.GtE):
+                verdicts.append('ok' if k == -1 else 'bad: takes element %r of the primes <= size, not the last' % (k,))
+            elif TBL in (a, b) and p in (a, b):
+                verdicts.append('bad: the primes are filtered with `%s`, not with `<= size`' % norm(c))
+        # T[np.searchsorted(T, size, side='right') - 1]
+        if isinstance(n, ast.Subscript) and norm(n.value) == TBL and isinstance(n.slice, ast.BinOp) and isinstance(n.slice.op, ast.Sub) \
+                and const_value(n.slice.right) == 1 and isinstance(n.slice.left, ast.Call) and norm(n.slice.left.func).endswith('searchsorted'):
+            sc = n.slice.left
+            side = next((const_value(kw.value) for kw in sc.keywords if kw.arg == 'side'), 'left')
+            args = [norm(x) for x in sc.args]
+            if args[-2:] == [TBL, p] or args == [p]:
+                verdicts.append('ok' if side == 'right' else "bad: searchsorted(side='left') - 1 gives the largest prime BELOW the size")
+    if not verdicts:
+        ctx.error('C18.a: the prime lookup of %s is not of a recognised form (T[T <= size][-1] and its spellings; found %s): cannot tell'
+                  % (fn.qualname, shapes[:4]))
+    ok_shape = all(v == 'ok' for v in verdicts)
+    ctx.obligation('C18.a', fn.qualname + ':lookup', ok_shape, {'subscripts': shapes, 'verdicts': verdicts})
     if not ok_shape:
-        ctx.violation('C18.a', fn.qualname, 'the lookup is not T[T <= size][-1] (found %s): it no longer selects the largest '
-                      'prime not exceeding the size' % shapes, fn.path, fn.lineno, operand='lookup')
+        ctx.violation('C18.a', fn.qualname, 'the lookup is not T[T <= size][-1] (%s): it no longer selects the largest '
+                      'prime not exceeding the size' % [v for v in verdicts if v != 'ok'], fn.path, fn.lineno, operand='lookup')
     # exhaustive evaluation of the decided semantics with the checker's arithmetic
     if ok_shape:
         ctx.instance('C18.a', 'sizes-25..1200')
